@@ -4,7 +4,7 @@ import NemoVerif.Models.Pipeline
 /-
   Driver for the `Pipeline` model (shared by C01 / C02 / C03).
   request  {"m": "C01.conv", "ver": "1.0"|"2.x",
-            "cfg": {"in": [ids], "out": [ids], "dialog": b, "exc": b, "nostop_in": [ids], "nostop_out": [ids],
+            "cfg": {"in": [ids], "out": [ids], "dialog": b, "exc": b, "nostop_in": [ids], "nostop_out": [ids], "sc": b (shipped self-check rails appended as rail 100),
                     "flag_reset": b | null (null = what the translator found in guardrails.co)},
             "turns": [{"user": s, "bot": s, "intent": "flow"|"free"|"act", "vin": [[id, v]..], "vout": [[id, v]..], "act_fault": b}]}
            v = "a" | "r" | "f" | "e" | ["w", text]
@@ -53,18 +53,32 @@ def getBoolD (j : Json) (k : String) (d : Bool) : Bool :=
   | .ok (.bool b) => b
   | _ => d
 
-def cfgOfJson (j : Json) : Except String Cfg := do
+/-- rail id of the shipped `self check input` / `self check output` rails (configured last when `"sc": true`) -/
+def scId : Nat := 100
+
+def cfgOfJson (ver : String) (j : Json) : Except String Cfg := do
   let inRails ← natsOfJson (← j.getObjVal? "in")
   let outRails ← natsOfJson (← j.getObjVal? "out")
   let nsIn ← optNats j "nostop_in"
   let nsOut ← optNats j "nostop_out"
+  let sc := getBoolD j "sc" false
+  -- whether the shipped self-check flows stop after raising their exception is read off the parsed flows
+  let scStops : Kind → Bool := fun k =>
+    match k, ver == "1.0" with
+    | .input, true => Generated.C01.selfCheckInputStopsV1
+    | .output, true => Generated.C01.selfCheckOutputStopsV1
+    | .input, false => Generated.C01.selfCheckInputStopsV2
+    | .output, false => Generated.C01.selfCheckOutputStopsV2
   pure {
-    inRails, outRails,
+    inRails := if sc then inRails ++ [scId] else inRails,
+    outRails := if sc then outRails ++ [scId] else outRails,
     dialog := getBoolD j "dialog" false,
     exc := getBoolD j "exc" false,
-    stops := fun k id => match k with
-      | .input => !nsIn.contains id
-      | .output => !nsOut.contains id,
+    stops := fun k id =>
+      if sc && id == scId then scStops k
+      else match k with
+        | .input => !nsIn.contains id
+        | .output => !nsOut.contains id,
     flagReset := getBoolD j "flag_reset" Generated.C01.v2FlagResetOnFailure }
 
 def turnOfJson (j : Json) : Except String Turn := do
@@ -110,9 +124,9 @@ def replyToJson (r : Reply) : Json :=
 def handle (op : String) (j : Json) : Except String Json := do
   match op with
   | "conv" =>
-    let cfg ← cfgOfJson (← j.getObjVal? "cfg")
-    let turns ← (← (← j.getObjVal? "turns").getArr?).toList.mapM turnOfJson
     let ver ← (← j.getObjVal? "ver").getStr?
+    let cfg ← cfgOfJson ver (← j.getObjVal? "cfg")
+    let turns ← (← (← j.getObjVal? "turns").getArr?).toList.mapM turnOfJson
     if ver == "1.0" then
       let rs := convV1 cfg initV1 turns
       pure (Json.mkObj [("turns", Json.arr (rs.map fun (tr, rep, h) =>
@@ -125,7 +139,9 @@ def handle (op : String) (j : Json) : Except String Json := do
           ("hist", Json.mkObj [("orip", .bool h.orip), ("talking", .bool h.talking)])]).toArray)])
   | "consts" =>
     pure (Json.mkObj [("refusal", .str refusal), ("internal_error", .str internalError),
-      ("flag_reset", .bool Generated.C01.v2FlagResetOnFailure)])
+      ("flag_reset", .bool Generated.C01.v2FlagResetOnFailure),
+      ("sc_stops", Json.arr #[.bool Generated.C01.selfCheckInputStopsV1, .bool Generated.C01.selfCheckOutputStopsV1,
+        .bool Generated.C01.selfCheckInputStopsV2, .bool Generated.C01.selfCheckOutputStopsV2])])
   | _ => throw s!"unknown op C01.{op}"
 
 end NemoVerif.Drive.C01
